@@ -52,6 +52,9 @@ def job_fn(job):
     if job.get('chain'):
         plugin = tvdelay.ChainPlugin()
     ct = build_python(spec)
+    if job['backend'] == 'fortran':
+        from .. import f2pystub
+        f2pystub.install()
     try:
         c = tv.compile_template(ct, backend=job['backend'], vectorize=job['vectorize'], step_size=float(DT),
                                 solver=job.get('solver', 'euler'), **kw)
@@ -99,6 +102,7 @@ def run(tier='quick', seed=0, only=None, verbose=False):
                 if tier == 'quick' and not vec and b != 'default' and not key.startswith('FF'):
                     continue
                 jobs.append(dict(key=f"{key}|{b}|vec={vec}", spec=spec, backend=b, vectorize=vec))
+        jobs.append(dict(key=f"{key}|fortran|vec=False", spec=spec, backend='fortran', vectorize=False))
         # returned-array convention
         for b in (BACKENDS if tier == 'thorough' else ['default']):
             jobs.append(dict(key=f"{key}|{b}|vec=True|backprop", spec=spec, backend=b, vectorize=True,
@@ -108,9 +112,11 @@ def run(tier='quick', seed=0, only=None, verbose=False):
     for key, spec in families.fam_discrete_delays_fixed()[:4] + families.fam_discrete_delays(seed, n=3 if tier == 'quick' else 20):
         for b in ('default', 'torch'):
             jobs.append(dict(key=f"{key}|{b}|vec=True|delay", spec=spec, backend=b, vectorize=True, delay=True))
+        jobs.append(dict(key=f"{key}|fortran|vec=False|delay", spec=spec, backend='fortran', vectorize=False, delay=True))
     for key, spec in families.fam_gamma_fixed()[:3]:
         for b in BACKENDS:
             jobs.append(dict(key=f"{key}|{b}|vec=True|chain", spec=spec, backend=b, vectorize=True, chain=True))
+        jobs.append(dict(key=f"{key}|fortran|vec=False|chain", spec=spec, backend='fortran', vectorize=False, chain=True))
     if only:
         jobs = [j for j in jobs if only in j['key']]
     # run and additionally compare returned argument values across backends of the same (spec, vectorize)
@@ -155,8 +161,8 @@ def run(tier='quick', seed=0, only=None, verbose=False):
             continue
         for b in ('torch', 'jax'):
             ij.append(dict(j, backend=b, key=f"{j['key']}|{b}"))
-    if tier == 'quick':
-        ij = ij[::2]
+        if not j['vectorize'] and j['cols'] == 0:
+            ij.append(dict(j, backend='fortran', key=f"{j['key']}|fortran"))
     if only:
         ij = [j for j in ij if only in j['key']]
     for job, outc in runner.run_jobs(c08.input_job, ij, timeout=600):
